@@ -1,7 +1,7 @@
 # -*- coding: utf-8 -*-
 """Driver for C14 (time), C15, C16 (and their C18 zone variants): labella.scale.TimeScale records.
 
-stdin : {"seed", "mode": "ticks"|"nice"|"map", "curated": {"stride", "offset"}?, "random": n}
+stdin : {"seed", "mode": "ticks"|"nice"|"map"|"hist", "curated": {"stride", "offset"}?, "random": n}
 """
 import datetime as dt
 import json
@@ -149,6 +149,83 @@ def domains(job, rng, lo_span, hi_span):
         yield (st, end) if rng.random() < 0.7 else (end, st)
 
 
+# ------------------------------------------------------------------ histories (C15: every time scale, however it was obtained)
+HDOMS = {"dA": [dt.datetime(2001, 3, 4, 5, 6, 7, 89000), dt.datetime(2001, 3, 9)],
+         "dB": [dt.datetime(1999, 12, 31, 23, 59, 59, 999000), dt.datetime(2000, 1, 1, 0, 0, 0, 5000)],
+         "dC": [dt.datetime(2150, 6, 1), dt.datetime(1905, 2, 28, 12)]}
+HRNGS = {"rA": [0, 100], "rB": [50.5, -50]}
+
+
+def observe(s):
+    d = s.domain()
+    r = s.range()
+    probe = d[0] + ((d[1] - d[0]) * 37 // 100) // MS * MS
+    y0, y1 = s(d[0]), s(d[1])
+    return {"d": [x.isoformat() for x in d], "r": [repr(float(x)) for x in r], "c": 1 if s.clamp() else 0,
+            "y0": repr(float(y0)), "y1": repr(float(y1)), "yp": repr(float(s(probe))),
+            "e0": 1 if y0 == r[0] else 0, "e1": 1 if y1 == r[1] else 0}
+
+
+def play_hist(h, doms, rngs):
+    scales = [TimeScale().domain(list(doms["d0"])).range(list(rngs["r0"]))]
+    rec = {"obs0": [observe(scales[0])], "ev": []}
+    for e in h:
+        a, i, x = e["a"], e["i"], e["x"]
+        s = scales[i - 1]
+        if a == "D":
+            s.domain(list(doms[x]))
+        elif a == "R":
+            s.range(list(rngs[x]))
+        elif a == "K":
+            s.clamp(x == "1")
+        elif a == "N":
+            s.nice(int(x))
+        elif a == "Y":
+            scales.append(s.copy())
+        elif a == "F":
+            s.domain(scales[int(x) - 1].domain())
+        elif a == "T":
+            s.ticks(int(x))
+        rec["ev"].append({"a": a, "i": i, "x": x, "obs": [observe(t) for t in scales]})
+    return rec
+
+
+def random_hist(rng):
+    def dom():
+        a = rand_instant(rng)
+        sp = rng.choice(SPANS) if rng.random() < 0.6 else int(10 ** rng.uniform(0.5, 12.5))
+        b = min(HI, a + dt.timedelta(milliseconds=sp))
+        if a == b:
+            a = b - MS
+        return [a, b] if rng.random() < 0.7 else [b, a]
+    doms = {"dA": dom(), "dB": dom(), "dC": dom(), "d0": dom()}
+    rngs = {"rA": [0, rng.choice([100, 360, 0.5])], "rB": [rng.uniform(10, 500), rng.uniform(-500, 5)], "r0": [0, 1]}
+    n = 1
+    h = []
+    for _ in range(rng.randint(3, 15)):
+        a = rng.choice(["D", "D", "R", "K", "N", "N", "Y", "F", "T"])
+        i = rng.randint(1, n)
+        if a == "Y":
+            if n >= 4:
+                continue
+            n += 1
+            x = ""
+        elif a == "F":
+            if n < 2:
+                continue
+            x = str(rng.choice([t for t in range(1, n + 1) if t != i]))
+        elif a == "D":
+            x = rng.choice(["dA", "dB", "dC"])
+        elif a == "R":
+            x = rng.choice(["rA", "rB"])
+        elif a == "K":
+            x = "1"
+        else:
+            x = rng.choice(["10", "2"])
+        h.append({"a": a, "i": i, "x": x})
+    return h, doms, rngs
+
+
 def main():
     job = json.load(sys.stdin)
     rng = random.Random(job.get("seed", 0))
@@ -176,6 +253,13 @@ def main():
                     continue
                 t2 = EPOCH + ((t2 - EPOCH) // MS) * MS
                 recs.append(map_record(d0, d1, t, t2, rng.choice(RANGES)))
+    elif mode == "hist":
+        fixed = dict(HDOMS, d0=[dt.datetime(2000, 1, 1), dt.datetime(2000, 1, 2)])
+        for h in job.get("histories", []):
+            recs.append(play_hist(h, fixed, dict(HRNGS, r0=[0, 1])))
+        for _ in range(job.get("count", 0)):
+            h, doms, rngs = random_hist(rng)
+            recs.append(play_hist(h, doms, rngs))
     json.dump({"records": recs}, sys.stdout)
 
 
